@@ -94,6 +94,7 @@ class Unit:
         self.extra_log_macros = []
         self.errors = []
         self.census = []
+        self.crate_name = name
 
     def src(self, rel):
         if rel not in self.srcs:
@@ -105,6 +106,8 @@ class Unit:
 
     # ------------------------------------------------------------------------------------
     def build(self, canary=False):
+        if canary:
+            self.crate_name = self.name + '_canary'
         secs = parse_ctr(self.ctr_path)
         for s in secs:
             if s.kind == 'logmacros':
@@ -142,7 +145,10 @@ class Unit:
                 txt = self._apply_substs(txt, s, notes)
                 self.items.append(Item(s.args[1], 'type', txt, origin=sp.describe(), notes=notes))
             elif k == 'fn':
-                self.items.append(self._build_fn(s, canary))
+                self.items.append(self._build_fn(s, False))
+                if canary:
+                    c = self._build_fn(s, True)
+                    self.items.append(c)
             elif k == 'census':
                 self.census.append(s)
             else:
@@ -184,6 +190,9 @@ class Unit:
         txt = self._apply_substs(txt, s, notes)
         rewritten = txt
         txt, has_contract = weave(txt, s, notes, canary)
+        if canary:
+            # a renamed COPY of the function with `ensures false` appended: it must fail to verify
+            txt = re.sub(r'\bfn\s+' + re.escape(fn) + r'\b', 'fn ' + fn + '__canary', txt, count=1)
         if header is not None:
             h = re.sub(r'\s+', ' ', header.strip())
             body = '%s {\n    %s\n}' % (h, txt)
@@ -192,7 +201,11 @@ class Unit:
         it = Item(qual, 'fn', body, props=props, origin=sp.describe(), notes=notes, src_text=sp.text)
         it.rewritten = rewritten
         it.has_contract = has_contract
-        it.verus_name = '%s::%s' % (self.name, qual)
+        it.verus_name = '%s::%s' % (self.crate_name, qual)
+        it.is_canary = canary
+        if canary:
+            it.verus_name += '__canary'
+            it.label = qual + '__canary'
         return it
 
     # ------------------------------------------------------------------------------------
@@ -342,11 +355,29 @@ def weave(txt, s, notes, canary=False):
             sig_lines.append(body)
             has_contract = True
         elif name == 'loop':
-            k = int(arg)
+            largs = arg.split()
+            k = int(largs[0])
             loops = _loops(mask, body_open, body_close)
             if k < 1 or k > len(loops):
                 raise ExtractError('@loop %d: function %s has %d loops' % (k, s.args[1], len(loops)))
             inserts.append((loops[k - 1][1], '\n' + body + '\n        '))
+            if len(largs) > 1:
+                # name the ghost iterator: `for P in E` -> `for P in NAME: E`
+                lo, bo = loops[k - 1]
+                inpos = None
+                depth = 0
+                for j in range(lo + 3, bo):
+                    c = mask[j]
+                    if c in '([{':
+                        depth += 1
+                    elif c in ')]}':
+                        depth -= 1
+                    elif depth == 0 and mask[j:j + 4] == ' in ' :
+                        inpos = j + 4
+                        break
+                if inpos is None:
+                    raise ExtractError('@loop %d: cannot name iterator in %s' % (k, s.args[1]))
+                inserts.append((inpos, largs[1] + ': '))
         elif name in ('before', 'after'):
             anc = _anchor(arg)
             pos = -1
@@ -373,13 +404,34 @@ def weave(txt, s, notes, canary=False):
             if mask[bs] != '{' and not mask.startswith('->', bs):
                 raise ExtractError('@closure %d in %s: closure body is not a block' % (k, s.args[1]))
             inserts.append((b2 + 1, ' ' + body.strip() + ' '))
+        elif name == 'loopbody':
+            k = int(arg.split()[0])
+            loops = _loops(mask, body_open, body_close)
+            if k < 1 or k > len(loops):
+                raise ExtractError('@loopbody %d: function %s has %d loops' % (k, s.args[1], len(loops)))
+            inserts.append((loops[k - 1][1] + 1, '\n' + body + '\n'))
+        elif name == 'top':
+            inserts.append((body_open + 1, '\n' + body + '\n'))
         elif name == 'subst':
             pass
         else:
             raise ExtractError('unknown directive @%s' % name)
 
     if canary:
-        sig_lines.append('    ensures false,')
+        if '    ensures' in sig_lines:
+            i = sig_lines.index('    ensures')
+            b = sig_lines[i + 1].rstrip()
+            # strip trailing comment-only lines when deciding about the comma
+            code = '\n'.join(l for l in b.split('\n') if not l.strip().startswith('//')).rstrip()
+            if not code.endswith(','):
+                b += ','
+            sig_lines[i + 1] = b + '\n        false,'
+        else:
+            # `ensures` must come after requires and before decreases
+            pos = len(sig_lines)
+            if '    decreases' in sig_lines:
+                pos = sig_lines.index('    decreases')
+            sig_lines[pos:pos] = ['    ensures', '        false,']
 
     # return value naming
     sig = txt[fn_off:body_open]
